@@ -225,6 +225,7 @@ type node struct {
 	injectErr       bool     // the next write of the underlying store fails
 	failedPutServed []string
 	hadPair         bool              // storeDKGOutput has completed at least once
+	blockedSaves    []string          // Saves that failed because of a leftover temporary file
 	saveMode        map[string]string // per key file: how the last Save put it on disk ("rename" | "in-place")
 	resetOrder      []string          // the order in which Reset removed the two files
 }
@@ -378,7 +379,22 @@ func (n *node) fileSave(kf string, epoch int, path string, do func() error) erro
 	err = do()
 	evs := tr.stop()
 	if err != nil {
-		return err
+		if _, e := os.Lstat(stale); e != nil {
+			return err
+		}
+		// the leftover of an earlier crashed Save made this Save fail: that is the finding; take the
+		// operator's part (remove it) and go on, so that the rest of the history is still examined
+		n.blockedSaves = append(n.blockedSaves, fmt.Sprintf("Save of %s (epoch %d) with a cut %s left by an earlier crash: %s", filepath.Base(path), epoch, filepath.Base(stale), errClass(err)))
+		_ = os.Remove(stale)
+		tr, err = traceDir(filepath.Dir(path))
+		if err != nil {
+			return err
+		}
+		err = do()
+		evs = tr.stop()
+		if err != nil {
+			return err
+		}
 	}
 	content, err := os.ReadFile(path)
 	if err != nil {
@@ -455,6 +471,48 @@ func (n *node) fileSave(kf string, epoch int, path string, do func() error) erro
 	}
 	n.snap(tag+"/written", "after", "")
 	return nil
+}
+
+// errClass projects an error of the key store on what matters here (never its text).
+func errClass(err error) string {
+	switch {
+	case err == nil:
+		return "ok"
+	case errors.Is(err, iofs.ErrExist):
+		return "error: file exists"
+	case errors.Is(err, iofs.ErrNotExist):
+		return "error: no such file"
+	case errors.Is(err, iofs.ErrPermission):
+		return "error: permission"
+	}
+	return "error: other"
+}
+
+// laterSave: the process died at this snapshot and was restarted; later the NEXT DKG output is
+// stored in the same key folder by a fresh key store (what storeDKGOutput does) and read back.
+func (w *world) laterSave(s *snapshot, root string, epoch int) (g, sh fload, gErr, sErr error, leftovers []string, err error) {
+	work, err := copyTree(root, s.dir, "later-"+filepath.Base(s.dir))
+	if err != nil {
+		return g, sh, nil, nil, nil, err
+	}
+	defer os.RemoveAll(work)
+	mb := filepath.Join(work, common.MultiBeaconFolder)
+	_ = filepath.WalkDir(mb, func(p string, d iofs.DirEntry, e error) error {
+		if e == nil && !d.IsDir() && strings.Contains(d.Name(), ".tmp") {
+			leftovers = append(leftovers, d.Name())
+		}
+		return nil
+	})
+	store := key.NewFileStore(mb, beaconID)
+	if guard(func() { gErr = store.SaveGroup(w.groups[epoch]) }) {
+		gErr = errors.New("panic")
+	}
+	if guard(func() { sErr = store.SaveShare(w.shares[epoch]) }) {
+		sErr = errors.New("panic")
+	}
+	g, _ = w.loadGroup(mb)
+	sh, _ = w.loadShare(mb)
+	return g, sh, gErr, sErr, leftovers, nil
 }
 
 func copyTree(root, src, name string) (string, error) {
@@ -990,6 +1048,30 @@ func runScheme(rep *emit.Report, sch *crypto.Scheme, seed int64, root, tier stri
 		add(fmt.Sprintf("Snap %s %s %s", emit.List(s.run), s.cp, o.coqTail()), fmt.Sprintf("%s %s", sch.Name, s.name), len(o.rounds) > 0 || o.fin != nil || o.cur != nil)
 		_ = i
 		monitor(rep, sch.Name, s, o, stored)
+		// ... and after that restart the next DKG output must be storable without operator repair
+		// (the snapshots around beacon Puts have the key folder of the snapshot before them)
+		if s.kind == "inside-put" || strings.HasPrefix(s.name, "beacon-") {
+			continue
+		}
+		lg, ls, gErr, sErr, left, err := w.laterSave(s, root, 3)
+		if err != nil {
+			return nil, nil, fmt.Errorf("later save on %s: %w", s.name, err)
+		}
+		add(fmt.Sprintf("LaterSave %s %s 3 %s %s", emit.List(s.run), s.cp, lg.coq(), ls.coq()), fmt.Sprintf("%s %s, then the output of epoch 3 is stored", sch.Name, s.name), true)
+		rep.Count("later-save/" + s.kind)
+		if gErr != nil || sErr != nil || lg.class != "ok" || lg.epoch != 3 || ls.class != "ok" || ls.epoch != 3 {
+			class := "C13-later-save-after-crash-fails"
+			if len(left) > 0 && (errors.Is(gErr, iofs.ErrExist) || errors.Is(sErr, iofs.ErrExist)) {
+				class = "C13-leftover-temp-file-blocks-later-save"
+			}
+			rep.Fail(class, fmt.Sprintf("process died at %q, was restarted, and the next DKG output (epoch 3) could not be stored: SaveGroup %s, SaveShare %s; the key folder then reads back group %s/%d share %s/%d",
+				s.name, errClass(gErr), errClass(sErr), lg.class, lg.epoch, ls.class, ls.epoch),
+				map[string]interface{}{"scheme": sch.Name, "crash_point": s.name, "kind": s.kind, "files_left_by_the_crash": left,
+					"later_SaveGroup": errClass(gErr), "later_SaveShare": errClass(sErr), "group_file_after": lg, "share_file_after": ls})
+		}
+	}
+	for _, b := range n.blockedSaves {
+		rep.Fail("C13-leftover-temp-file-blocks-later-save", b, map[string]interface{}{"scheme": sch.Name, "history": "a cut temporary file as a crashed earlier Save leaves it, then this Save on the live node"})
 	}
 	// the whole history as events, expanded with the shape read from the source
 	final, err := w.reload(n.snaps[len(n.snaps)-1], root)
